@@ -149,7 +149,8 @@ template <class A> static void text_exec(const std::string& s, vh::Out& out) {
     out.begin(std::string("\"t\":\"") + T::name() + "\"");
     vh::W w; w.O().kv("e", "parse").kv("t", T::name()); chars(w, "s", s);
     bool ok = false; std::string ex; Bytes val, back;
-    try { A x(s); ok = true; val = T::bytes(x);
+    // half of the strings go through the std::string constructor, half through the const char* one (both are the public way in)
+    try { A x = (s.size() % 2) ? A(s) : A(s.c_str()); ok = true; val = T::bytes(x);
           try { A y(x.to_string()); back = T::bytes(y); } catch (std::exception&) { } }
     catch (invalid_address&) { ex = "invalid_address"; }
     catch (exception_base&) { ex = "exception_base"; }
